@@ -9,7 +9,8 @@
    position) and are run without the invariant Admits: the harness uses them to decide whether a "no complete set"
    failure of the code is the one this model predicts; "span" is the rule that function's docstring describes. *)
 EXTENDS BShellsCat
-CONSTANTS MESHES, LATS, RULES, SSC, Variant
+CONSTANTS MESHES, LATS, RULES, SSC, Variant,
+          PAIRSEL   \* {} = every lattice x mesh; else the set of "lattice:mesh code" strings (e.g. "fcc:113") to run
 VARIABLES lat, L, rule, st
 vars == <<lat, L, rule, st>>
 
@@ -18,7 +19,8 @@ MeshOfCode(c) == <<c \div 100, (c \div 10) % 10, c % 10>>
 Lattice(name, N) == MkLattice(Catalogue[name].G, Catalogue[name].gs, Catalogue[name].A, N, SSC)
 
 Init == /\ lat \in LATS
-        /\ \E c \in MESHES : L = Lattice(lat, MeshOfCode(c))
+        /\ \E c \in MESHES : /\ (PAIRSEL = {} \/ (lat \o ":" \o ToString(c)) \in PAIRSEL)
+                            /\ L = Lattice(lat, MeshOfCode(c))
         /\ rule \in RULES
         /\ (rule = "latt" => Catalogue[lat].A # <<>>)
         /\ st = StInit
